@@ -268,7 +268,7 @@ theorem inv_apply_other (c : RtCtx) (σ : CState) (isStart : Bool) (a : AEv) (h 
 theorem inv_asked (c : RtCtx) (σ : CState) (isStart : Bool) (q : Quest) (v : Bool) (h : Inv c σ) :
     Inv c (c.applyEv isStart σ (.asked q v)) := by
   cases q with
-  | full i => exact (inv_onDemandAlloc c σ i h).1
+  | full i => exact h
   | cond e =>
     simp only [RtCtx.applyEv]
     split
@@ -298,9 +298,8 @@ theorem runTree_inv (c : RtCtx) (hs : c.SizesOK) (isStart : Bool) (t : CTree) :
     · next hq =>
       have hq' : (c.answer σ (.full i) == some true) = false := by simpa using hq
       have hroom := room_of_not_full c σ i h hq'
-      obtain ⟨h1, hc, _⟩ := inv_onDemandAlloc c σ i h
       apply ihk _ hgk
-      exact inv_apply_append c hs _ isStart i b h1 (by show ((c.onDemandAlloc σ i).str i).counter < _; rw [hc]; exact hroom)
+      exact inv_apply_append c hs _ isStart i b h hroom
   | case2 i kt j e k ihkt ihk =>
     intro σ hg h
     simp only [Bool.and_eq_true, beq_iff_eq] at hg
@@ -312,9 +311,8 @@ theorem runTree_inv (c : RtCtx) (hs : c.SizesOK) (isStart : Bool) (t : CTree) :
     · next hq =>
       have hq' : (c.answer σ (.full i) == some true) = false := by simpa using hq
       have hroom := room_of_not_full c σ i h hq'
-      obtain ⟨h1, hc, _⟩ := inv_onDemandAlloc c σ i h
       apply ihk _ hgk
-      exact inv_apply_appendC c hs _ isStart i e h1 (by show ((c.onDemandAlloc σ i).str i).counter < _; rw [hc]; exact hroom)
+      exact inv_apply_appendC c hs _ isStart i e h hroom
   | case3 q kt kf _ _ ihkt ihkf =>
     intro σ hg h
     simp only [Bool.and_eq_true] at hg
